@@ -230,6 +230,7 @@ def retention_keeps_newest(ctx):
             ctx.undecided(f'{f.qualname}:files removed', c, f'slice form `{src(it)}` not recognised', f)
     # guarded by max_days being set (0 = keep all)
     for c in removes:
-        guarded = any(isinstance(a, ast.If) and 'max_days' in src(a.test) for a in ancestors(c))
+        rcfg = CFG(f.node, m, f.module)
+        guarded = set(rcfg.node_of(c)) <= sides_with_fact(rcfg, lambda a, tv: tv and src(a).endswith('max_days'))
         ctx.check(guarded, f'{f.qualname}:retention only when configured', c, 'guarded by self.max_days',
                   'files are removed even when no retention is configured (max_days == 0 would delete `files[:-0]` = nothing / everything)', f)
